@@ -458,13 +458,15 @@ func init() {
 			}
 			// nested on/off groups against the reference scoping
 			for _, p := range patterns.ShapesOf("options") {
-				ast, ng, err := patterns.Parse(p.Text, 0)
-				if err != nil {
-					continue
-				}
-				for n := 0; n <= maxN; n++ {
-					us = append(us, Unit{ID: fmt.Sprintf("C18/%s/nested/n%d", p.Text, n), Harness: "spell", Params: map[string]string{"pattern": p.Text, "pattern_inline": p.Text, "pattern_wrap": p.Text,
-						"options": "0", "options_rest": "0", "copts": "", "n": itoa(n), "ast": ast.Sexpr(), "ngroups": itoa(ng), "anyi": "1"}})
+				for _, o := range []int{0, patterns.OptN, patterns.OptX, patterns.OptI | patterns.OptN} {
+					ast, ng, err := patterns.Parse(p.Text, o)
+					if err != nil {
+						continue
+					}
+					for n := 0; n <= maxN; n++ {
+						us = append(us, Unit{ID: fmt.Sprintf("C18/%s/nested/o%d/n%d", p.Text, o, n), Harness: "spell", Params: map[string]string{"pattern": p.Text, "pattern_inline": p.Text, "pattern_wrap": p.Text,
+							"options": itoa(o), "options_rest": itoa(o), "copts": "", "n": itoa(n), "ast": ast.Sexpr(), "ngroups": itoa(ng), "anyi": "1"}})
+					}
 				}
 			}
 			return us
@@ -476,6 +478,15 @@ func init() {
 		ID: "C20",
 		Build: func(tier string, seed int) []Unit {
 			ps := dedup(append(patterns.ShapesOf("case", "findmode-prefix", "findmode-set", "classes", "alternation", "autoatomic", "opcodes"), enumPats(tier, seed)...))
+			// every ASCII letter (and a few others) as the first and as the second rune of a literal prefix:
+			// the ignore-case searches special-case letters by range
+			for c := 'a'; c <= 'z'; c++ {
+				ps = append(ps, patterns.FromText(string(c)+"q", 0, "shape:alphabet"), patterns.FromText("q"+string(c)+"1", 0, "shape:alphabet"))
+			}
+			for _, c := range []rune{'é', 'ÿ', 'σ', 'ω', 'ж', 'я', 'ß', 'k'} {
+				ps = append(ps, patterns.FromText(string(c)+"q", 0, "shape:alphabet"))
+			}
+			ps = dedup(ps)
 			maxN, maxVar := 3, 2
 			if tier == "thorough" {
 				maxN, maxVar = 4, 6
@@ -544,7 +555,7 @@ type grpKind struct {
 
 // groupPatterns enumerates patterns mixing unnamed, named, explicitly numbered and duplicate-named groups.
 func groupPatterns(tier string) []string {
-	kinds := []grpKind{{"", ""}, {"?<x>", "x"}, {"?<y>", "y"}, {"?<3>", "3"}, {"?<7>", "7"}, {"?<x1>", "x1"}, {"?'q'", "q"}}
+	kinds := []grpKind{{"", ""}, {"?<x>", "x"}, {"?<y>", "y"}, {"?<3>", "3"}, {"?<7>", "7"}, {"?<x1>", "x1"}, {"?'q'", "q"}, {"?<2>", "2"}}
 	bodies := []string{"a", "b", "c", "[ab]"}
 	var out []string
 	seen := map[string]bool{}
@@ -555,6 +566,11 @@ func groupPatterns(tier string) []string {
 		}
 	}
 	g := func(k grpKind, body string) string { return "(" + k.open + body + ")" }
+	// runs of consecutive explicit numbers next to unnamed and named groups
+	for _, s := range []string{`(a)(?<2>b)(?<3>c)(?<n>a)`, `(?<2>a)(?<3>b)(?<x>c)`, `(a)(?<2>b)(?<3>c)(?<4>a)(?<n>b)(c)`, `(?<1>a)(?<2>b)(?<n>c)`, `(?<n>a)(?<2>b)(?<3>c)(b)`,
+		`(a)(b)(?<3>c)(?<4>a)(?<x>b)(?<y>c)`, `(?<3>a)(?<2>b)(?<1>c)(?<n>a)`, `(?<2>a)|(?<3>b)|(?<n>c)|(a)`} {
+		add(s)
+	}
 	for i, k1 := range kinds {
 		add(g(k1, "a"))
 		for j, k2 := range kinds {
@@ -863,10 +879,10 @@ func init() {
 		ID: "C09",
 		Build: func(tier string, seed int) []Unit {
 			var ps []patterns.Pat
-			for _, t := range []string{`a`, `(a)`, `(a)(b)?`, `(?<x>a)|b`, `a*`, `\b`, `(?<2>a)(b)`, `[ab]+`, `(a)|(b)`, `.`, `a|`, `(?<n>.)\k<n>`, `^`, `$`, `(\w)(\w)`} {
+			for _, t := range []string{`a`, `(a)`, `(a)(b)?`, `(?<x>a)|b`, `a*`, `\b`, `(?<2>a)(b)`, `(?<1>a)(?<7>b)?`, `(?<3>a)|(?<x>b)`, `[ab]+`, `(a)|(b)`, `.`, `a|`, `(?<n>.)\k<n>`, `^`, `$`, `(\w)(\w)`} {
 				ps = append(ps, patterns.FromText(t, 0, "shape:replace"))
 			}
-			reps := []string{"<$&>", "$1", "${1}x", "$$", "$`|$'", "$+", "$_", "${x}", "${n}", "$2$1", "x", "$", "$9", "${", "$10", "${2}", ""}
+			reps := []string{"<$&>", "$1", "${1}x", "$$", "$`|$'", "$+", "$_", "${x}", "${n}", "$2$1", "x", "$", "$9", "${", "$10", "${2}", "", "$7", "${7}$1", "$3${x}"}
 			maxN, symN := 2, "1"
 			if tier == "thorough" {
 				maxN, symN = 3, "2"
@@ -1063,11 +1079,17 @@ func init() {
 			if tier == "thorough" {
 				maxN = 3
 			}
-			for _, p := range []string{`a`, `a*`, `(a)|b`, `\b`, `(?<n>.)`, `$`, `[^a]+`, `(a)(b)?`, `\Ga`, `(?<=a)`, `.`} {
+			for _, p := range []string{`a`, `a*`, `(a)|b`, `\b`, `(?<n>.)`, `$`, `[^a]+`, `(a)(b)?`, `\Ga`, `(?<=a)`, `.`, `(?<1>a)(?<7>.)`, `(?<5>.)|(?<n>a)`} {
 				for _, o := range []int{0, patterns.OptRTL} {
 					for n := 0; n <= maxN; n++ {
+						rep := "<$1${n}$&>"
+						if strings.Contains(p, "<7>") {
+							rep = "$7|${7}|$1"
+						} else if strings.Contains(p, "<5>") {
+							rep = "$5${n}"
+						}
 						us = append(us, Unit{ID: fmt.Sprintf("C10/args/%s/o%d/n%d", p, o, n), Harness: "args", Domain: "full",
-							Params: map[string]string{"pattern": p, "options": itoa(o), "copts": "", "n": itoa(n), "rep": "<$1${n}$&>", "key_extra": "args"}})
+							Params: map[string]string{"pattern": p, "options": itoa(o), "copts": "", "n": itoa(n), "rep": rep, "key_extra": "args"}})
 					}
 				}
 			}
@@ -1153,20 +1175,27 @@ func init() {
 					if tier != "thorough" && (pi+mi+seed)%3 != 0 {
 						continue
 					}
+					if pi == 0 && mi == 0 {
+						// timed matches from two goroutines: the process-wide timeout clock (same harness as C14's concurrent event)
+						for _, h := range []string{"conc2", "timed,conc2"} {
+							us = append(us, Unit{ID: "C11/clock/" + h, Harness: "clock", PathBudget: 40000, StepBudget: 30_000_000,
+								Params: map[string]string{"pattern": "clock", "history": h, "period_ns": "100000000", "jitter_ns": "0", "ddom": "200000000", "waitdom": "0-600000000", "preempt": "2", "key_extra": "clock/" + h, "interp_replay": "1"}})
+						}
+					}
 					us = append(us, Unit{ID: fmt.Sprintf("C11/%s/%s", p.a, mx), Harness: "conc", PathBudget: 30000,
-						Params: map[string]string{"pattern": p.a, "pattern_b": p.b, "options": "0", "copts": "", "n": itoa(n), "ops": mx, "preempt": itoa(pre), "key_extra": mx}})
+						Params: map[string]string{"pattern": p.a, "pattern_b": p.b, "options": "0", "copts": "", "n": itoa(n), "ops": mx, "preempt": itoa(pre), "key_extra": mx, "interp_replay": "1"}})
 				}
 			}
 			return us
 		},
 		Rule: "For each (pattern pair, call mix): one goroutine per call (bool, find+iterate, find-all, Replace with distinct replacement patterns, ReplaceFunc, Split; on a shared Regexp and on a second Regexp sharing the global pools) on symbolic ASCII texts; the goroutines are coroutines of the interpreter, the scheduler's choice at every synchronisation operation (sync.Pool Get/Put, Mutex Lock/Unlock, sync/atomic, go, exit) is a solver decision, all interleavings up to the pre-emption bound are explored; on each, every call's result equals the result of the same call alone on an unused Regexp, and a vector-clock access log over every load/store reports unordered conflicting accesses.",
-		Witnesses: []string{"end"},
+		Witnesses: []string{"end", "concurrent-deadlines"},
 		Assumptions: []string{"interleavings at synchronisation granularity only (segments free of synchronisation run atomically; covered only through the absence of unordered conflicting accesses in the access log); sync.Pool hands back the most recently returned object; at most 2 (quick) / 3 (thorough) pre-emptions; 2-3 goroutines"},
 	})
 	register(&propSpec{
 		ID: "C14",
 		Build: func(tier string, seed int) []Unit {
-			hists := []string{"timed", "quick", "timed,timed", "timed,idle-long,timed", "idle-short,timed", "timed,stop,timed", "quick,idle-long,quick", "stop,timed", "timed,idle-long,quick"}
+			hists := []string{"timed", "conc2", "timed,conc2", "quick", "timed,timed", "timed,idle-long,timed", "idle-short,timed", "timed,stop,timed", "quick,idle-long,quick", "stop,timed", "timed,idle-long,quick"}
 			if tier == "thorough" {
 				hists = append(hists, "timed,timed,timed", "timed,idle-long,timed,idle-long,quick", "quick,stop,quick,timed", "timed,idle-short,timed,stop")
 			}
@@ -1177,11 +1206,19 @@ func init() {
 					{"1000000", "5000000-8000000", "0-16000000"},
 				} {
 					pre := "0"
-					if hi == 0 && ci == 0 || tier == "thorough" && hi < 4 {
+					if hi == 0 && ci == 0 || hi == 1 || tier == "thorough" && hi < 5 {
 						pre = "1" // pre-emptions of the main goroutine at its synchronisation operations
 					}
+					jit, ddom := "1000000", cfg.ddom
+					if strings.Contains(h, "conc2") {
+						if ci == 1 {
+							continue // the concurrent event runs 1.5 s of virtual time: only with the 100 ms period
+						}
+						// concrete timeout and no jitter: the schedule of the two deadline makers is what is explored here
+						jit, ddom, pre = "0", "200000000", "2"
+					}
 					us = append(us, Unit{ID: fmt.Sprintf("C14/%s/p%s/pre%s", h, cfg.period, pre), Harness: "clock", PathBudget: 40000, StepBudget: 30_000_000,
-						Params: map[string]string{"pattern": "clock", "history": h, "period_ns": cfg.period, "jitter_ns": "1000000", "ddom": cfg.ddom, "waitdom": cfg.waitdom, "preempt": pre, "key_extra": h + "/" + cfg.period}})
+						Params: map[string]string{"pattern": "clock", "history": h, "period_ns": cfg.period, "jitter_ns": jit, "ddom": ddom, "waitdom": cfg.waitdom, "preempt": pre, "key_extra": h + "/" + cfg.period, "interp_replay": "1"}})
 				}
 			}
 			return us
